@@ -1,11 +1,9 @@
 #!/bin/sh
-# Scratch worktree for a seeded-break author: /tmp/sb-<name>/repo = git worktree of /repo HEAD
-# with a warm copy of /repo/target (so `cargo test` only rebuilds the workspace crates).
+# Scratch worktree for a seeded-break author: /tmp/sb-<name>/repo = git worktree of /repo HEAD.
 set -e
-N="$1"; [ -n "$N" ] || { echo "usage: mksb.sh <name>"; exit 2; }
+N="$1"; [ -n "$N" ] || { echo "usage: mksb <name>"; exit 2; }
 W=/tmp/sb-$N
 [ -d "$W/repo" ] && git -C /repo worktree remove --force "$W/repo" 2>/dev/null || true
 rm -rf "$W"; mkdir -p "$W"
 git -C /repo worktree add --detach "$W/repo" HEAD >/dev/null
-if [ -d /repo/target ]; then cp -a /repo/target "$W/repo/target"; fi
-echo "$W/repo"
+echo "$W/repo   (cold target dir: first 'cargo test -p <crate>' build takes several minutes; build only the crates you need: -p celestia-types / -p lumina-node / -p celestia-grpc; disk is scarce - do not build the whole workspace more than once)"
